@@ -587,6 +587,10 @@ func (g *gen) fieldType(depth int, objectOnly bool, allowContainer bool, hint st
 				items.Ref.BodyRef = false
 			}
 			ty := &Type{Kind: kind, Items: items}
+			if rapid.IntRange(0, 4).Draw(t, "singleform") == 0 && !g.masked(kind+".ext.singleForm") {
+				ty.SingleForm = rapid.SampledFrom([]string{"item", "entry", "one \"thing\""}).Draw(t, "singleformv")
+				g.cls("ext-single-form:" + kind)
+			}
 			if g.o.Rules && rapid.IntRange(0, 2).Draw(t, "containerrules") == 0 && !g.masked("rules:"+kind) {
 				r := &Rules{}
 				if kind == "array" {
